@@ -58,7 +58,8 @@ def position_adapters(ctx, rule):
             known = {c[2]: N.NONE for c in p.guards() if c[0] == "cmp" and c[1] == "is" and c[3] == N.NONE}
             want = N.subst(dk, known) if dk is not None else None
             nst += 1
-            ok = ok and len(st) == 1 and st[0]["key"] == want and st[0]["value"] == OBJ and st[0]["base"] == p.retval and N.contains(p.retval, N.selfattr("count"))
+            ok = ok and len(st) == 1 and st[0]["key"] == want and st[0]["value"] == OBJ and st[0]["base"] == p.retval and p.retval[0] == "bin" and p.retval[1] == "*" and N.selfattr("count") in p.retval[2:] \
+                and any(N.contains(x, N.selfattr("empty")) and x != N.selfattr("count") for x in p.retval[2:])
         ctx.ob(rule, fe, ok and nst >= 1, "%s._encode stores the object under the very index/slice (start, stop, step) that _decode reads, in a list of `count` fillers" % cls, key="%s encode position" % cls)
 
 
@@ -200,6 +201,7 @@ def run(ctx):
     from ..core import Ctx as _Ctx
     interval.leb128_obligations(ctx, "C02.R8")      # VarInt._build ends every number with a terminal group that _parse stops on
     C10_helpers.zigzag(ctx, "C02.R8")
+    C10_helpers.varint_parse_form(ctx, "C02.R8")
     C03.unit_table_check(ctx, "C02.R8")             # the terminator CString writes is the terminator it looks for
     sub = _Ctx("C15", ctx.tier, ctx.root, model=ctx.model)
     sub._summ = summariser(ctx)
